@@ -61,3 +61,10 @@ pub use default::*;
 pub use epoch::*;
 pub use guard::*;
 pub use pointers::*;
+
+#[cfg(circ_verif)]
+pub mod verif_shim {
+    pub use super::epoch::verif_shim_epoch::*;
+    pub use super::internal::verif_shim_internal::*;
+    pub use super::pointers::verif_shim_ptr::*;
+}
